@@ -27,6 +27,27 @@ Tie / search (DESIGN.md §4.2, §5 C06):
    rejected, but no diagnostic on the site   -> ctx.violation("wrong-line:<operator>")
    model OK, compiler rejects P              -> ctx.correspondence_broken
    diagnostic kind differs from model's rule -> ctx.correspondence_broken
+  Text-level families (constructs outside the core AST; python oracle, independent of the compiler):
+   (a) state across constructs: 2-4 `match`es over the same enum(s) in one compilation unit (separate
+       functions, nested function, in sequence in one body, match inside an arm), each exhaustive /
+       with else / omitting one enumerator (every choice incl. first- and last-declared).  The
+       verdict per match is independent of the others: the set of `does not cover E::x` diagnostics
+       must be exactly {(line of the match, omitted enumerator)}; the model's match_check judges
+       every match as well (build/ocaml/tc/run mcheck).
+   (b) scope of pattern binders: `match` record arms, `if let` with record / item guards, with and
+       without braces, `else if let` chains; one use of a pattern-bound name per program at: its own
+       arm / then-branch (also inside a closure there), another arm, the else-branch, a closure in the
+       else-branch, the then/else-branch of a chained `else if let`, after the construct.  Without an
+       outer binding every use outside the arm must be `cannot find identifier`; with an outer
+       binding of ANOTHER type (bool) the use must resolve to the outer one outside the arm and to
+       the binder inside (use sites `x + 1` and `x && true`: a wrong resolution is a type error or
+       a missing one).  The grid is enumerated completely.
+   (c) qualifier/type mismatch at every type position: random function-bearing types up to depth 3
+       (functions taking / returning functions, arrays and tuples of functions); expected and given
+       type differ in exactly one place (var qualifier, parameter kind, result kind, arity +-1) at
+       every function node of the type; the given value is passed as argument, assigned, returned,
+       put into an array literal, used as the other branch of ?: -- all must be rejected at that
+       line; the identical type must be accepted.
   Corpus: /verif/corpus/C06/*.nev (first line `# expect: accept` | `# expect: reject line=<n>
   key=<key>`), and the negative samples of <repo>/sample (`*.nev.err` with an `error:` line): each
   must be rejected at the first recorded line.
@@ -37,6 +58,7 @@ import collections
 import json
 import multiprocessing.pool
 import os
+import random
 import re
 import subprocess
 import time
@@ -202,6 +224,535 @@ def judge(ctx, c, r, stats, faults):
     return "rejected-ok"
 
 
+
+# ==========================================================================================
+# text-level families (a) (b) (c): python builds the programs and knows the verdict
+# ==========================================================================================
+class Src:
+    """source text builder that knows the line of what it emits"""
+    def __init__(self):
+        self.lines = []
+
+    def add(self, text):
+        for l in text.split("\n"):
+            self.lines.append(l)
+        return len(self.lines)          # line number of the last line added
+
+    def next_line(self):
+        return len(self.lines) + 1
+
+    def text(self):
+        return "\n".join(self.lines) + "\n"
+
+
+def tcase(cid, group, kind, op, where, expect, src, line=0, msg=None, extra=None):
+    c = {"id": cid, "group": group, "kind": kind, "op": op, "ctx": where, "expect": expect,
+         "l0": line, "l1": line, "msg": msg, "src": src, "text": True}
+    if extra:
+        c.update(extra)
+    return c
+
+
+# ---- (a) several matches over the same enums ------------------------------------------------
+def match_lines(rng, enum, n, arms, scrut, ind, val=None):
+    """arms: list of enumerator numbers and/or 'else'"""
+    out = [ind + "match " + scrut, ind + "{"]
+    for a in arms:
+        if a == "else":
+            out.append("%s    else -> 99;" % ind)
+        else:
+            out.append("%s    %s::e%d -> %d;" % (ind, enum, a, 10 + a))
+    out.append(ind + "}")
+    return out
+
+
+def gen_multimatch(rng, ngroups):
+    """-> list of cases; each case carries `expect_cover`: [(line, 'E::e2'), ...] (exact set)"""
+    cases = []
+    for g in range(ngroups):
+        group = "mm%d" % g
+        enums = [("E", rng.randint(1, 6))] + ([("F", rng.randint(2, 5))] if rng.random() < 0.4 else [])
+        nm = rng.randint(2, 4)
+        layout = rng.choice(["functions", "sequence", "nested-func", "in-arm", "mixed"])
+        # the matches of the base program: each exhaustive (full, or subset + else)
+        base = []
+        for j in range(nm):
+            en, n = enums[0] if (j < 2 or rng.random() < 0.6) else rng.choice(enums)
+            ks = list(range(n))
+            rng.shuffle(ks)
+            if rng.random() < 0.3:
+                arms = ks[:rng.randint(0, n - 1)] + ["else"]
+            else:
+                arms = ks
+            base.append((en, n, arms))
+
+        def build(matches):
+            """-> (text, [line of match j])"""
+            s = Src()
+            for en, n in enums:
+                s.add("enum %s { %s }" % (en, ", ".join("e%d" % k for k in range(n))))
+            mline = [0] * len(matches)
+            lay = layout if layout != "mixed" else None
+
+            def put(j, scrut, ind, prefix="", suffix=""):
+                en, n, arms = matches[j]
+                ls = match_lines(rng, en, n, arms, scrut, ind)
+                if prefix:
+                    ls[0] = ind + prefix + ls[0].strip()
+                ls[-1] = ls[-1] + suffix
+                mline[j] = s.next_line()
+                s.add("\n".join(ls))
+
+            def param(j):
+                return "x%d : %s" % (j, matches[j][0])
+
+            if lay == "functions" or (lay is None and len(matches) == 2):
+                for j in range(len(matches)):
+                    s.add("func m%d(%s) -> int\n{" % (j, param(j)))
+                    put(j, "x%d" % j, "    ")
+                    s.add("}")
+            elif lay == "sequence":
+                s.add("func m0(%s) -> int\n{" % ", ".join(param(j) for j in range(len(matches))))
+                for j in range(len(matches)):
+                    put(j, "x%d" % j, "    ", prefix="let r%d = " % j, suffix=";")
+                s.add("    " + " + ".join("r%d" % j for j in range(len(matches))))
+                s.add("}")
+            elif lay == "nested-func":
+                s.add("func m0(%s) -> int\n{" % ", ".join(param(j) for j in range(len(matches))))
+                for j in range(1, len(matches)):
+                    s.add("    func in%d(y : %s) -> int\n    {" % (j, matches[j][0]))
+                    put(j, "y", "        ")
+                    s.add("    };")
+                s.add("    " + " + ".join("in%d(x%d)" % (j, j) for j in range(1, len(matches))) + " +")
+                put(0, "x0", "    ")
+                s.add("}")
+            elif lay == "in-arm":
+                # match 1.. inside the first arm of match 0 (block arm), written by hand
+                s.add("func m0(%s) -> int\n{" % ", ".join(param(j) for j in range(len(matches))))
+                en0, n0, arms0 = matches[0]
+                mline[0] = s.add("    match x0")
+                s.add("    {")
+                first = True
+                for a in arms0:
+                    head = "        else" if a == "else" else "        %s::e%d" % (en0, a)
+                    if first:
+                        first = False
+                        s.add(head + " ->")
+                        s.add("        {")
+                        for j in range(1, len(matches)):
+                            put(j, "x%d" % j, "            ", prefix="let r%d = " % j, suffix=";")
+                        s.add("            " + " + ".join("r%d" % j for j in range(1, len(matches))))
+                        s.add("        };")
+                    else:
+                        s.add(head + " -> 7;")
+                s.add("    }")
+                s.add("}")
+            else:   # mixed: first in its own function, the rest in sequence in another
+                s.add("func m0(%s) -> int\n{" % param(0))
+                put(0, "x0", "    ")
+                s.add("}")
+                s.add("func m1(%s) -> int\n{" % ", ".join(param(j) for j in range(1, len(matches))))
+                for j in range(1, len(matches)):
+                    put(j, "x%d" % j, "    ", prefix="let r%d = " % j, suffix=";")
+                s.add("    " + " + ".join("r%d" % j for j in range(1, len(matches))))
+                s.add("}")
+            s.add("func main() -> int\n{\n    0\n}")
+            return s.text(), mline
+
+        def emit(tag, kind, op, matches):
+            text, mline = build(matches)
+            cover = []
+            for j, (en, n, arms) in enumerate(matches):
+                if "else" not in arms:
+                    for k in range(n):
+                        if k not in arms:
+                            cover.append([mline[j], "%s::e%d" % (en, k)])
+            cases.append(tcase("%s.%s" % (group, tag), group, kind, op, layout,
+                               "reject" if cover else "accept", text,
+                               extra={"expect_cover": cover,
+                                      "matches": [[n] + arms for (_, n, arms) in matches]}))
+
+        if all(len([a for a in arms if a != "else"]) + ("else" in arms) > 0 for (_, _, arms) in base):
+            emit("base", "base", "-", base)
+        cnt = 0
+        for j, (en, n, arms) in enumerate(base):
+            if "else" in arms:
+                if len(arms) - 1 < n and len(arms) > 1:
+                    cnt += 1
+                    emit("m%d" % cnt, "mutant", "MatchDropElse:multi", base[:j] + [(en, n, [a for a in arms if a != "else"])] + base[j + 1:])
+                continue
+            if n == 1:
+                continue
+            ks = sorted({0, n - 1} | ({rng.randrange(n)} if n > 2 else set())) if n > 4 else list(range(n))
+            for k in ks:
+                cnt += 1
+                pos = "first" if k == 0 else ("last" if k == n - 1 else "middle")
+                emit("m%d" % cnt, "mutant", "MatchOmitEnumerator:multi:" + pos,
+                     base[:j] + [(en, n, [a for a in arms if a != k])] + base[j + 1:])
+        # one double fault: two different matches each omit their last-declared enumerator
+        el = [j for j, (en, n, arms) in enumerate(base) if "else" not in arms and n > 1]
+        if len(el) >= 2:
+            a, b = el[0], el[-1]
+            mm = list(base)
+            for j in (a, b):
+                en, n, arms = mm[j]
+                mm[j] = (en, n, [x for x in arms if x != n - 1])
+            cnt += 1
+            emit("m%d" % cnt, "mutant", "MatchOmitEnumerator:multi:two-matches", mm)
+    return cases
+
+
+# ---- (b) scope of pattern binders ---------------------------------------------------------------
+USES = {"plus": "x + 1", "and": "((x && true) ? 1 : 0)"}
+
+
+def gen_binders():
+    """complete grid: construct x site x outer binding x use form"""
+    cases = []
+    enum = "enum R { A { x : int; }, B { y : int; z : int; }, C }"
+
+    def wrap(site_expr, closure):
+        return ("let func () -> int { %s }()" % site_expr) if closure else site_expr
+
+    # every construct is a list of lines with placeholders {own} {other} {else} {chain_then} {chain_else};
+    # absent sites get the filler "0"
+    constructs = {
+        "match-record-arm": (["    let r = match e", "    {", "        R::A(x) -> {own};", "        R::B(y, z) -> {other};",
+                              "        R::C -> {else};", "    };"], ["own", "other", "else", "after"]),
+        "match-record-arm-else": (["    let r = match e", "    {", "        R::A(x) -> {own};", "        else -> {else};", "    };"],
+                                  ["own", "else", "after"]),
+        "iflet-record-braces": (["    let r = if let (R::A(x) = e)", "    {", "        {own}", "    }", "    else", "    {",
+                                 "        {else}", "    };"], ["own", "else", "after"]),
+        "iflet-record-nobraces": (["    let r = if let (R::A(x) = e)", "        {own}", "    else", "        {else};"],
+                                  ["own", "else", "after"]),
+        "iflet-record-noelse": (["    let r = if let (R::A(x) = e)", "    {", "        {own}", "    };"], ["own", "after"]),
+        "iflet-chain-record-first": (["    let r = if let (R::A(x) = e)", "    {", "        {own}", "    }",
+                                      "    else if let (R::B(y, z) = e)", "    {", "        {chain_then}", "    }", "    else", "    {",
+                                      "        {chain_else}", "    };"], ["own", "chain_then", "chain_else", "after"]),
+        "iflet-chain-item-first": (["    let r = if let (R::C = e)", "    {", "        {other}", "    }",
+                                    "    else if let (R::A(x) = e)", "    {", "        {own}", "    }", "    else", "    {",
+                                    "        {chain_else}", "    };"], ["other", "own", "chain_else", "after"]),
+    }
+    n = 0
+    for cname, (tmpl, sites) in sorted(constructs.items()):
+        for site in sites:
+            for closure in (False, True):
+                for outer in (False, True):
+                    for uname, use in sorted(USES.items()):
+                        if not outer and uname == "and" and site != "own":
+                            continue          # undefined either way, one use form is enough
+                        n += 1
+                        s = Src()
+                        s.add(enum)
+                        s.add("func f(e : R) -> int\n{")
+                        if outer:
+                            s.add("    let x = true;")
+                        site_line = 0
+                        for l in tmpl:
+                            m = re.search(r"\{(own|other|else|chain_then|chain_else)\}", l)
+                            if m:
+                                if m.group(1) == site:
+                                    site_line = s.next_line()
+                                    s.add(l.replace(m.group(0), wrap(use, closure)))
+                                else:
+                                    s.add(l.replace(m.group(0), "0"))
+                            else:
+                                s.add(l)
+                        if site == "after":
+                            site_line = s.next_line()
+                            s.add("    r + " + wrap(use, closure))
+                        else:
+                            s.add("    r")
+                        s.add("}")
+                        s.add("func main() -> int\n{\n    f(R::C)\n}")
+                        inside = (site == "own")
+                        sees_int = inside                      # the binder (int)
+                        sees_bool = (not inside) and outer     # the outer let (bool)
+                        if sees_int:
+                            expect, msg = ("accept", None) if uname == "plus" else ("reject", r"^cannot compare types")
+                        elif sees_bool:
+                            expect, msg = ("accept", None) if uname == "and" else ("reject", r"^cannot exec arithmetic")
+                        else:
+                            expect, msg = "reject", r"^cannot find identifier x"
+                        where = "%s/%s%s%s" % (cname, site, "+closure" if closure else "", "+outer" if outer else "")
+                        op = ("BinderScope:" + ("in-arm" if inside else "outside-arm") + (":outer" if outer else ""))
+                        cases.append(tcase("bs%d" % n, "bs-" + cname, "base" if expect == "accept" else "mutant", op, where,
+                                           expect, s.text(), line=site_line, msg=msg))
+    return cases
+
+
+# ---- (c) one-place type differences -----------------------------------------------------------------
+def gen_type(rng, depth, need_fun=True):
+    """types: ('int',) ('bool',) ('fun', [(var, T)..], T) ('arr', T) ('tup', [T, T])"""
+    if depth <= 0:
+        return (rng.choice(["int", "bool"]),)
+    kind = rng.choice(["fun", "fun", "fun", "arr", "tup"]) if need_fun else rng.choice(["base", "base", "fun", "arr", "tup"])
+    if kind == "base":
+        return (rng.choice(["int", "bool"]),)
+    if kind == "fun":
+        np_ = rng.choice([0, 1, 1, 2])
+        ps = [(rng.random() < 0.3, gen_type(rng, depth - 1, need_fun=(rng.random() < 0.5))) for _ in range(np_)]
+        return ("fun", ps, gen_type(rng, depth - 1, need_fun=(rng.random() < 0.4)))
+    if kind == "arr":
+        return ("arr", gen_type(rng, depth - 1, need_fun=need_fun))
+    return ("tup", [(rng.choice(["int", "bool"]),), gen_type(rng, depth - 1, need_fun=need_fun)])
+
+
+def has_fun(t):
+    return t[0] == "fun" or (t[0] == "arr" and has_fun(t[1])) or (t[0] == "tup" and any(has_fun(x) for x in t[1]))
+
+
+class Names:
+    def __init__(self):
+        self.n = 0
+
+    def fresh(self, p):
+        self.n += 1
+        return "%s%d" % (p, self.n)
+
+
+def ty_str(t, nm):
+    if t[0] in ("int", "bool"):
+        return t[0]
+    if t[0] == "fun":
+        return "(" + ", ".join(("var " if v else "") + ty_str(p, nm) for v, p in t[1]) + ") -> " + ty_str(t[2], nm)
+    if t[0] == "arr":
+        return "[%s] : %s" % (nm.fresh("D"), ty_str(t[1], nm))
+    return "(" + ", ".join(ty_str(x, nm) for x in t[1]) + ")"
+
+
+def param_str(name, t, nm, var=False):
+    pre = "var " if var else ""
+    if t[0] == "fun":
+        return pre + name + "(" + ", ".join(("var " if v else "") + ty_str(p, nm) for v, p in t[1]) + ") -> " + ty_str(t[2], nm)
+    if t[0] == "arr":
+        return pre + "%s[%s] : %s" % (name, nm.fresh("D"), ty_str(t[1], nm))
+    return pre + name + " : " + ty_str(t, nm)
+
+
+def value_str(t, nm):
+    """a closed one-line expression of type t"""
+    if t[0] == "int":
+        return "0"
+    if t[0] == "bool":
+        return "true"
+    if t[0] == "fun":
+        ps = ", ".join(param_str(nm.fresh("q"), p, nm, var=v) for v, p in t[1])
+        return "let func (%s) -> %s { %s }" % (ps, ty_str(t[2], nm), value_str(t[2], nm))
+    if t[0] == "arr":
+        return "[ %s ] : %s" % (value_str(t[1], nm), ty_str(t[1], nm))
+    return "(%s) : %s" % (", ".join(value_str(x, nm) for x in t[1]), ty_str(t, nm))
+
+
+def flip(t):
+    return ("bool",) if t[0] == "int" else ("int",)
+
+
+def one_place_variants(t, path=""):
+    """-> [(kind, path, t')] : t' differs from t in exactly one place inside a function type"""
+    out = []
+    if t[0] == "fun":
+        here = path + "fun"
+        ps, r = t[1], t[2]
+        for i, (v, p) in enumerate(ps):
+            out.append(("varflag", here, ("fun", ps[:i] + [(not v, p)] + ps[i + 1:], r)))
+            if p[0] in ("int", "bool"):
+                out.append(("paramkind", here, ("fun", ps[:i] + [(v, flip(p))] + ps[i + 1:], r)))
+            for k, pa, p2 in one_place_variants(p, here + ".param>"):
+                out.append((k, pa, ("fun", ps[:i] + [(v, p2)] + ps[i + 1:], r)))
+        if r[0] in ("int", "bool"):
+            out.append(("retkind", here, ("fun", ps, flip(r))))
+        for k, pa, r2 in one_place_variants(r, here + ".ret>"):
+            out.append((k, pa, ("fun", ps, r2)))
+        out.append(("arity+1", here, ("fun", ps + [(False, ("int",))], r)))
+        if ps:
+            out.append(("arity-1", here, ("fun", ps[:-1], r)))
+    elif t[0] == "arr":
+        for k, pa, e2 in one_place_variants(t[1], path + "arr>"):
+            out.append((k, pa, ("arr", e2)))
+    elif t[0] == "tup":
+        for i, x in enumerate(t[1]):
+            for k, pa, x2 in one_place_variants(x, path + "tup>"):
+                out.append((k, pa, ("tup", t[1][:i] + [x2] + t[1][i + 1:])))
+    return out
+
+
+POSITIONS = ["arg", "assign", "return", "array-elem", "cond-branch"]
+
+
+def type_program(texp, tgiv, pos):
+    """-> (source, line of the offending expression, diagnostic regex)"""
+    nm = Names()
+    s = Src()
+    if pos == "arg":
+        s.add("func sink(%s) -> int\n{\n    0\n}" % param_str("p", texp, nm))
+        s.add("func main() -> int\n{")
+        line = s.add("    sink(%s);" % value_str(tgiv, nm))
+        s.add("    0\n}")
+        return s.text(), line, r"^function call type mismatch"
+    if pos == "assign":
+        s.add("func main() -> int\n{")
+        s.add("    var v = %s;" % value_str(texp, nm))
+        line = s.add("    v = %s;" % value_str(tgiv, nm))
+        s.add("    0\n}")
+        return s.text(), line, r"^cannot assign different types"
+    if pos == "return":
+        line0 = s.add("func mk() -> %s" % ty_str(texp, nm))
+        s.add("{")
+        line = s.add("    %s" % value_str(tgiv, nm))
+        s.add("}")
+        s.add("func main() -> int\n{\n    0\n}")
+        return s.text(), (line0, line), r"^incorrect return type"
+    if pos == "array-elem":
+        s.add("func main() -> int\n{")
+        line = s.add("    let a = [ %s, %s ] : %s;" % (value_str(texp, nm), value_str(tgiv, nm), ty_str(texp, nm)))
+        s.add("    0\n}")
+        return s.text(), line, r"^array is not well formed|^incorrect types in array"
+    s.add("func main() -> int\n{")
+    s.add("    let c = 1 < 2;")
+    line = s.add("    let a = c ? %s : %s;" % (value_str(texp, nm), value_str(tgiv, nm)))
+    s.add("    0\n}")
+    return s.text(), line, r"^types on conditional expression do not match|are different"
+
+
+def gen_functypes(rng, ntypes, cap):
+    cases = []
+    seen = set()
+    g = 0
+    tries = 0
+    while g < ntypes and tries < ntypes * 20:
+        tries += 1
+        t = gen_type(rng, rng.choice([1, 2, 2, 3, 3]))
+        if not has_fun(t) or repr(t) in seen:
+            continue
+        seen.add(repr(t))
+        g += 1
+        group = "ft%d" % g
+        vs = one_place_variants(t)
+        rng.shuffle(vs)
+        # keep every (kind, path) class once, then fill up to cap
+        chosen, classes = [], set()
+        for v in vs:
+            if (v[0], v[1]) not in classes:
+                classes.add((v[0], v[1]))
+                chosen.append(v)
+        chosen = chosen[:cap]
+        for pos in POSITIONS:
+            if pos == "cond-branch" and t[0] == "tup":
+                continue     # expr_comb_cmp_and_set has no member-wise rule for tuples: not a function-type rule
+            src, line, msg = type_program(t, t, pos)
+            cases.append(tcase("%s.%s.base" % (group, pos), group, "base", "-", pos, "accept", src))
+            for i, (kind, path, t2) in enumerate(chosen):
+                src, line, msg = type_program(t, t2, pos)
+                l0, l1 = line if isinstance(line, tuple) else (line, line)
+                c = tcase("%s.%s.m%d" % (group, pos, i), group, "mutant", "TypeMismatch:%s@%s" % (kind, path), pos,
+                          "reject", src, line=l0, msg=msg)
+                c["l1"] = l1
+                cases.append(c)
+    return cases
+
+
+def judge_text(ctx, c, r, faults, model=None):
+    op, where = c["op"], c["ctx"]
+    if r is None or r["kind"] is None or r["san"]:
+        faults.append({"id": c["id"], "op": op, "end": (r or {}).get("end"), "sanitizer": bool(r and r["san"])})
+        return "compiler-fault"
+    if "expect_cover" in c:
+        got = sorted([ln, m.split()[-2]] for (ln, m) in r["errs"] if m.startswith("match expression does not cover"))
+        want = sorted(c["expect_cover"])
+        if model is not None:
+            mwant = "reject" if any(v != "OK" for v in model) else "accept"
+            if mwant != c["expect"]:
+                ctx.correspondence_broken("match-model-differs-from-oracle", {"id": c["id"], "model": model, "oracle": want})
+        missing = [w for w in want if w not in got]
+        if missing:
+            ctx.violation("accepted:%s" % op,
+                          "a match omitting an enumerator without else is not diagnosed (%s, layout %s)" % (op, where),
+                          {"case": c["id"], "operator": op, "context": where, "expected_diagnostics": want,
+                           "observed": r["errs"][:6], "outcome": r["kind"], "source": c["src"]})
+            return "ACCEPTED"
+        extra = [g for g in got if g not in want]
+        if extra or (not want and r["kind"] != "COMPILED"):
+            ctx.correspondence_broken("exhaustive-match-rejected", {"id": c["id"], "errors": r["errs"][:4], "src": c["src"]})
+            return "base-rejected"
+        return "rejected-ok" if want else "accepted-ok"
+    if c["expect"] == "accept":
+        if r["kind"] == "COMPILED":
+            return "accepted-ok"
+        ctx.correspondence_broken("text-positive-rejected", {"id": c["id"], "op": op, "context": where,
+                                                             "errors": r["errs"][:4], "src": c["src"]})
+        return "base-rejected"
+    if r["kind"] != "COMPILE_ERROR":
+        if op.startswith("TypeMismatch"):
+            # stable class: kind of difference, what the differing function type is nested in, position
+            kind, path = op[len("TypeMismatch:"):].split("@")
+            comps = path.split(">")
+            key = "accepted:TypeMismatch:%s:in-%s:%s" % (kind, comps[-2] if len(comps) > 1 else "top", where)
+        else:
+            key = "accepted:%s" % op
+        ctx.violation(key,
+                      "ill-typed program accepted by the compiler: %s at %s" % (op, where),
+                      {"case": c["id"], "operator": op, "context": where,
+                       "expected": "COMPILE_ERROR /%s/ at line %d" % (c["msg"], c["l1"]), "observed": r["kind"],
+                       "source": c["src"]})
+        return "ACCEPTED"
+    rx = re.compile(c["msg"])
+    if not any(c["l0"] <= ln <= c["l1"] and rx.search(m) for (ln, m) in r["errs"]):
+        if any(c["l0"] <= ln <= c["l1"] for (ln, _) in r["errs"]):
+            ctx.correspondence_broken("text-diagnostic-kind-differs", {"id": c["id"], "op": op, "context": where,
+                                                                       "expected": c["msg"], "errors": r["errs"][:4], "src": c["src"]})
+            return "kind-differs"
+        ctx.violation("wrong-line:%s" % op.split("@")[0],
+                      "diagnostic not reported at the offending line: %s at %s" % (op, where),
+                      {"case": c["id"], "operator": op, "context": where, "expected_lines": [c["l0"], c["l1"]],
+                       "observed": r["errs"][:5], "source": c["src"]})
+        return "WRONG-LINE"
+    return "rejected-ok"
+
+
+def run_text_families(ctx, drv, quick):
+    rng = random.Random((ctx.seed << 8) ^ 0xC06)
+    mm = gen_multimatch(rng, 120 if quick else 500)
+    bs = gen_binders()
+    ft = gen_functypes(rng, 160 if quick else 700, 12 if quick else 16)
+    cases = mm + bs + ft
+    # the model judges every match of family (a)
+    qpath = os.path.join(ctx.outdir, "mcheck.txt")
+    with open(qpath, "w") as f:
+        for c in mm:
+            for m in c["matches"]:
+                f.write(" ".join(str(x) for x in m) + "\n")
+    rc, so, se = common.sh([RUN, "mcheck", qpath], timeout=300)
+    os.remove(qpath)
+    verd = so.split()
+    k = 0
+    models = {}
+    for c in mm:
+        models[c["id"]] = verd[k:k + len(c["matches"])]
+        k += len(c["matches"])
+    if rc != 0 or k != len(verd):
+        ctx.correspondence_broken("mcheck-driver", {"rc": rc, "stderr": se[-500:]})
+    res = compile_all(ctx, drv, cases, "text")
+    faults = []
+    verdicts = collections.Counter()
+    per = collections.Counter()
+    distinct = set()
+    for c in cases:
+        v = judge_text(ctx, c, res.get(c["id"]), faults, models.get(c["id"]))
+        verdicts[v] += 1
+        fam = "a:multi-match" if c["id"].startswith("mm") else ("b:binder-scope" if c["id"].startswith("bs") else "c:type-position")
+        per["%s | %s | %s" % (fam, c["op"].split("@")[0], c["ctx"].split("/")[0])] += 1
+        if c["kind"] == "mutant":
+            distinct.add((c["op"], c["ctx"], c["group"]))
+    ctx.count(evaluations=sum(verdicts.values()), nontrivial=len(distinct))
+    ctx.coverage["text_families"] = {"verdicts": dict(verdicts), "cases": {"multi_match": len(mm), "binder_scope": len(bs), "type_position": len(ft)},
+                                     "per_family_operator_position": dict(sorted(per.items())),
+                                     "binder_scope_grid_exhaustive": True, "compiler_faults": faults[:3]}
+    for c in (mm[1:2] + bs[5:6] + [x for x in ft if x["kind"] == "mutant"][:1]):
+        ctx.sample({"family_case": c["id"], "operator": c["op"], "context": c["ctx"], "expect": c["expect"],
+                    "compiler": (res.get(c["id"]) or {}).get("errs", [])[:2], "source": c["src"][-500:]}, limit=9)
+
+
 def run_corpus(ctx, drv):
     cases = []
     meta = {}
@@ -266,6 +817,8 @@ def run(ctx):
     ctx.count(evaluations=ncorp, nontrivial=ncorp)
 
     quick = ctx.tier == "quick"
+    run_text_families(ctx, drv, quick)
+    ctx.notes["text_families_s"] = round(time.time() - t0, 1)
     nprog, kcap, nmatch = (320, 2, 120) if quick else (1600, 3, 500)
     cases_path = os.path.join(ctx.outdir, "cases.jsonl")
     rc, so, se = common.sh([RUN, "gen", str(ctx.seed), str(nprog), str(kcap), str(nmatch), cases_path], timeout=900)
